@@ -475,7 +475,7 @@ func respellPath(rng *lp.Rand, p string) string {
 	for i := 0; i < len(p); i++ {
 		c := p[i]
 		must := !(refUnreserved(c) || c == '/' || c == '-' || c == '.' || c == ':')
-		if must || (c != '/' && rng.Chance(25)) {
+		if must || (refUnreserved(c) && rng.Chance(25)) { // only unreserved bytes may be escaped needlessly: %3A is not ':'
 			if rng.Bool() {
 				fmt.Fprintf(&sb, "%%%02x", c)
 			} else {
